@@ -37,13 +37,14 @@ type scen struct {
 }
 
 type outcome struct {
-	Races    int      `json:"races"`
-	Keys     []string `json:"race_keys"`
-	First    string   `json:"first_report,omitempty"`
-	PostOK   bool     `json:"post_ok"`
-	Problems []string `json:"problems,omitempty"`
-	Ops      int      `json:"ops"`
-	Crashed  string   `json:"crashed,omitempty"`
+	Races        int      `json:"races"`
+	Keys         []string `json:"race_keys"`
+	First        string   `json:"first_report,omitempty"`
+	PostOK       bool     `json:"post_ok"`
+	Problems     []string `json:"problems,omitempty"`
+	Ops          int      `json:"ops"`
+	Crashed      string   `json:"crashed,omitempty"`
+	Inconclusive string   `json:"inconclusive,omitempty"`
 }
 
 func verifRoot() string {
@@ -128,9 +129,14 @@ func runScen(bin string, s scen) outcome {
 	var o outcome
 	select {
 	case <-done:
-	case <-time.After(120 * time.Second):
+	case <-time.After(20 * time.Minute):
+		// the scenario process has its own progress-based deadlock detection and a
+		// 12 min cap; getting here means it is wedged beyond that: not a verdict on /repo
 		_ = cmd.Process.Kill()
-		o.Crashed = "scenario process did not finish within 120 s"
+		<-done
+		o.Inconclusive = "scenario process killed after 20 min"
+		o.PostOK = true
+		return o
 	}
 	seen := map[string]bool{}
 	for _, rep := range raceSplit.Split(stderr.String(), -1) {
@@ -159,9 +165,10 @@ func runScen(bin string, s scen) outcome {
 		}
 	}
 	var res struct {
-		PostOK   bool     `json:"post_ok"`
-		Problems []string `json:"problems"`
-		Ops      int      `json:"ops"`
+		Inconclusive string   `json:"inconclusive"`
+		PostOK       bool     `json:"post_ok"`
+		Problems     []string `json:"problems"`
+		Ops          int      `json:"ops"`
 	}
 	line := strings.TrimSpace(stdout.String())
 	if i := strings.LastIndex(line, "\n"); i >= 0 {
@@ -177,7 +184,7 @@ func runScen(bin string, s scen) outcome {
 		}
 		return o
 	}
-	o.PostOK, o.Problems, o.Ops = res.PostOK, res.Problems, res.Ops
+	o.PostOK, o.Problems, o.Ops, o.Inconclusive = res.PostOK, res.Problems, res.Ops, res.Inconclusive
 	for i, p := range o.Problems {
 		if len(p) > 200 {
 			o.Problems[i] = p[:200]
@@ -243,13 +250,17 @@ func gen(c *core.Ctx) error {
 	for r := 0; r < rounds; r++ {
 		for _, p := range procs {
 			seed := c.Rng.Int63n(1 << 30)
+			atomIters := 2500
+			if p == 1 {
+				atomIters = 600 // one processor shared by owners and sweepers under the race detector
+			}
 			jobs = append(jobs,
 				scen{"cache-basic", p, seed, 8, 500},
 				scen{"cache-maint", p, seed + 1, 8, 500},
 				scen{"client-shared-config", p, seed + 2, 8, 3},
 				scen{"secman-shared-config", p, seed + 3, 6, 6},
 				scen{"percommand-shared-config", p, seed + 5, 12, 8},
-				scen{"cache-atomicity", p, seed + 6, 4, 2500},
+				scen{"cache-atomicity", p, seed + 6, 4, atomIters},
 				scen{"session-ids", 2 * p, seed + 7, 16, 20000},
 				scen{"stream-duplex", p, seed + 4, 3, 120})
 		}
@@ -264,12 +275,24 @@ func gen(c *core.Ctx) error {
 			defer wg.Done()
 			defer func() { <-sem }()
 			outs[i] = runScen(bin, jobs[i])
+			if outs[i].Inconclusive != "" && outs[i].Races == 0 && outs[i].PostOK {
+				// too slow on this machine right now: one more try with a quarter of the work
+				j := jobs[i]
+				j.Iters = (j.Iters + 3) / 4
+				if o2 := runScen(bin, j); o2.Inconclusive == "" {
+					jobs[i], outs[i] = j, o2
+				}
+			}
 		}(i)
 	}
 	wg.Wait()
 	for i, s := range jobs {
 		o := outs[i]
 		c.Count("scenario:" + s.Name)
+		if o.Inconclusive != "" {
+			c.Count("inconclusive")
+			c.Note(fmt.Sprintf("%s (GOMAXPROCS=%d): inconclusive, not judged: %s", s.Name, s.Procs, o.Inconclusive))
+		}
 		c.CountN("operations:"+s.Name, o.Ops)
 		c.CountN("race-reports:"+s.Name, o.Races)
 		if o.Ops > 0 {
